@@ -971,8 +971,11 @@ def run(ctx) -> None:
             for i in range(ctx.pick(12, 300) // ctx.shard_count + 1):
                 arun(backpressure_case(ctx, rng.choice([2, 3, 5, 8]), rng.choice([2000, 20000, 70000]),
                                        ctx.seed * 100000 + ctx.shard_index * 1000 + i))
+            from .. import codedict
+
             for i, (quiet_s, pending) in enumerate([(35, False), (35, True), (65, False), (320, True), (3700, False),
-                                                    (90000, True)]):
+                                                    (90000, True), *((d, bool(k % 2)) for k, d in enumerate(codedict.durations())
+                                                                     if d >= 5)]):
                 if ctx.mine(i):
                     quiet_connection_case(ctx, quiet_s, pending, "tcp")
             for i in range(ctx.pick(3, 40) // ctx.shard_count + 1):
